@@ -136,6 +136,23 @@ def judge_score(d):
             ctr = float(lds[tuple(s // 2 for s in lds.shape)])
             if not abs(ctr - sc) <= 2e-4:
                 out.append(viol(f"C07/landscape-centre-vs-score:{name}", f"{name} {tag}: score {sc:.6f} but landscape centre {ctr:.6f} (shape {lds.shape})"))
+        # the same template inside a model that holds several templates (no rotation search): the zero-range alignment score of
+        # candidate j is the single-template score of template j, and a sub-volume identical to a template scores 1
+        others = [gen.smooth_noise(d["seed"] + 11 + i, shape, sigma=0.8) for i in range(d.get("n_other", 0))]
+        if others:
+            model1 = get_model("ZNCC")(tmpl, mask, **kw)
+            s1 = float(model1.score(sub, quat, pos))
+            jpos = d.get("j_pos", 0) % (len(others) + 1)
+            tl = others[:jpos] + [tmpl] + others[jpos:]
+            singles = [float(get_model("ZNCC")(t, mask, **kw).score(sub, quat, pos)) for t in tl]
+            modelT = get_model("ZNCC")(tl, mask, **kw)
+            r = modelT.align(sub, (0.0, 0.0, 0.0), quaternion=quat, pos=pos)
+            best = int(np.argmax(singles))
+            if np.isfinite(s1) and not abs(float(r.score) - max(singles)) <= 3e-4:
+                out.append(viol("C07/multi-template-score", f"ZNCC {tag}: {len(tl)}-template model: zero-range align score {float(r.score):.6f} (label {int(r.label)}) "
+                                f"but the best single-template score is {max(singles):.6f} (template {best})"))
+            if d["pair"] == "identical" and not abs(float(r.score) - 1) <= 1e-3:
+                out.append(viol("C07/multi-template-identical-not-1", f"ZNCC {tag}: {len(tl)}-template model scores {float(r.score):.6f} for a sub-volume identical to template {jpos}"))
     return out
 
 
@@ -247,7 +264,8 @@ def score_cases(draw):
             "cutoff": draw(st.sampled_from([None, None, 0.2, 0.45, 0.7])),
             "tilt": tilt, "tilt_as": tilt_as, "rot": draw(gen.rotvecs()), "rot2": draw(gen.rotvecs()),
             "gain": draw(st.sampled_from([1e-3, 0.37, 2.0, 55.0, 1e3])), "offset": draw(st.sampled_from([-5.0, 0.25, 10.0, 100.0])),
-            "lmax": draw(st.sampled_from([1.0, 2.0, 1.5, 2.7]))}
+            "lmax": draw(st.sampled_from([1.0, 2.0, 1.5, 2.7])),
+            "n_other": draw(st.sampled_from([0, 0, 1, 2])), "j_pos": draw(st.integers(0, 2))}
 
 
 @st.composite
